@@ -15,7 +15,7 @@ CHECKS = {
 CHECKS['C01'] = dict(
     text="Lean theorem uper_roundtrip_partial: for ALL well-formed types of the model universe and ALL accepted values and ALL continuations of the bit stream, "
          "UPER decode(encode v ++ rest) = (canon v, rest) (structural induction over the type universe, no bound on nesting/sizes), outside the named finding predicates; "
-         "likewise oer_roundtrip_partial (OER) and der_roundtrip / ber_roundtrip (C01b.lean); aligned PER: code model + correspondence, no round-trip theorem. "
+         "likewise oer_roundtrip_partial (OER) and der_roundtrip / ber_roundtrip (C01b.lean); aligned PER: per_roundtrip_partial / per_roundtrip_mod8 / per_decode_encode for the whole universe (C01p.lean, hypothesis Per.fragFree with a necessity witness). "
          "The uper/oer models are tied to the code by byte-exact encode and value-exact decode correspondence on every generated case.",
     note=NOTE_COMMON + "Partial: universe = BOOLEAN/NULL/INTEGER/ENUMERATED/OCTET+BIT STRING/5 string kinds/SEQUENCE(OPTIONAL,DEFAULT,additions)/SEQUENCE OF/CHOICE under AUTOMATIC TAGS; "
          "REAL, OID, SET, time types, named bits, addition groups, references are exercised by correspondence-free direct checks only; CPython str codecs assumed.",
@@ -29,8 +29,8 @@ CHECKS['C15'] = dict(
     ref="DESIGN.md §4 C15")
 CHECKS['C16'] = dict(
     text="Lean theorems uper_truncated / oer_truncated / der_truncated: EVERY strict byte prefix of the encoding of any value of any type of the universe is rejected with the library's DecodeError by the code model (never a value, never foreign), and *_prefix_deterministic; "
-         "every strict byte prefix of generated encodings is checked on the implementation for 5 codecs and, for uper/oer, against the Lean model decoder.",
-    note=NOTE_COMMON + "Partial: aligned PER and BER by direct evaluation + correspondence (no truncation theorem).",
+         "every strict byte prefix of generated encodings is checked on the implementation for 5 codecs and, for uper/oer, against the Lean model decoder; the explicit-tagging family adds untagged CHOICE / ANY / high tag numbers under EXPLICIT and IMPLICIT TAGS.",
+    note=NOTE_COMMON + "Aligned PER: per_truncated / per_prefix_deterministic (C16p.lean); BER with definite lengths: ber_truncated / ber_string_truncated (C16b.lean); indefinite-length BER, jer, xer by direct evaluation of every cut point only.",
     technique="Lean 4 proof (every strict prefix of every encoding, structural induction) + all-cut-points differential check",
     ref="DESIGN.md §4 C16")
 CHECKS['C11'] = dict(
@@ -85,7 +85,7 @@ CHECKS['C07'] = dict(
     text="Lean theorems forward_uper/oer/der and backward_uper/oer/der over the inductive relation Extends (additions, alternatives, enumeration items appended after the marker at any nesting depth): "
          "every V2 encoding decodes under V1 to canon(project v) with the rest of the stream intact, every V1 encoding decodes under V2 to the same value; extendsB_correct, v1_value_is_v2_value. "
          "Random extension steps V1->V2 are exercised on 7 real codecs in both directions and the V1 model decoders are run on the real V2 bytes.",
-    note=NOTE_COMMON + "Partial: theorems cover uper, oer, der (ber shares der's encoder); per-aligned, jer, xer by direct evaluation only. Known finding C07-xer-list-element-unknown.",
+    note=NOTE_COMMON + "Theorems cover uper, oer, der, aligned PER (C07p.lean: forward_per / backward_per under Per.skipFree, whose necessity is the recorded finding C07-per-unknown-addition-16k) and BER with every length form (C07b.lean: forward_ber / backward_ber / *_dec / ber_enc_stable); jer, xer by direct evaluation only. Known findings C07-xer-list-element-unknown, C07-per-unknown-addition-16k.",
     technique="Lean 4 proof (induction over a compatibility relation between decoder and encoder types) + version-pair differential check",
     ref="DESIGN.md §4 C07")
 CHECKS['C08'] = dict(
@@ -93,7 +93,7 @@ CHECKS['C08'] = dict(
          "(raising the fuel of every data-driven loop above input length + 2 never changes the result: the loops stop because of the data) for DER, BER, UPER; and the recorded OER defect as theorems "
          "(a quantity field of n yields n elements from O(log n) octets; no linear allocation bound exists). Mutated and random inputs up to 4 KiB are decoded by 7 real codecs under time / address-space limits with a sentinel "
          "decode after each, and the outcome class is compared with the Lean models.",
-    note=NOTE_COMMON + "Partial: CPython wall-clock time and resident memory are observed under limits, not modelled; PER-aligned and OER bounds are not proved (OER has none: known finding); jer/xer are exercised directly.",
+    note=NOTE_COMMON + "Partial: CPython wall-clock time and resident memory are observed under limits, not modelled; aligned PER: C08p.lean (linear allocation bound for all types, fuel sufficiency, per_choice_overrun_rejected); OER has no bound (known finding, proved); jer/xer are exercised directly.",
     technique="Lean 4 proof (allocation bound + fuel sufficiency of total decoder models) + resource-limited mutation differential check",
     ref="DESIGN.md §4 C08")
 CHECKS['C02'] = dict(
@@ -121,7 +121,7 @@ CHECKS['C19'] = dict(
     text="Lean theorem run_permutation: the dictionary rewrite commutes with EVERY reordering of the type assignments of a module (for all dictionaries, other modules unrestricted), so compiled behaviour cannot depend on assignment order through the rewrite; "
          "module_order_matters is the closed witness of the recorded module-order defect. The rewrite model is tied to the code by dictionary-exact correspondence on every arrangement text; the remaining reorganisations "
          "(inline/extract references, split into modules with IMPORTS, file order, constraints on references) are decided by direct comparison of bytes and decoded values across arrangements rendered from one AST on all 8 codecs, with arrangement 0 also compared with the Lean codec models.",
-    note=NOTE_COMMON + "Partial: only assignment reordering is proved; reference inlining/extraction and module splitting are evaluated, not proved (the compiler's reference resolution after pre_process is not modelled). "
+    note=NOTE_COMMON + "Partial: only assignment reordering is proved; reference inlining/extraction, module splitting and EXTENSIBILITY IMPLIED arrangements are evaluated, not proved (the compiler's reference resolution after pre_process is not modelled). "
          "Known findings C19-components-of-module-order, C19-constraint-on-reference-ignored.",
     technique="Lean 4 proof (rewrite commutes with assignment permutations) + dictionary-exact correspondence + metamorphic arrangement comparison",
     ref="DESIGN.md §4 C19")
